@@ -318,6 +318,13 @@ Crash ==
     /\ g' = [g EXCEPT !.crashed = TRUE]
     /\ UNCHANGED <<cfg, dir, now>>
 
+\* Qt calls abort() when the message handler has returned from a fatal message
+Abort ==
+    /\ Idle
+    /\ sk' = Dead
+    /\ g' = [g EXCEPT !.crashed = TRUE, !.fatalLost = ~(sk.buf = <<>> /\ RecSet(g.hist) \subseteq g.flushed)]
+    /\ UNCHANGED <<cfg, dir, now>>
+
 SetNow(t) == /\ (t = now \/ TLess(now, t)) /\ now' = t /\ UNCHANGED <<cfg, dir, sk, g>>
 
 ---------------------------------------------------------------------------
@@ -328,7 +335,7 @@ Ghost0(D0, rlen0, rday0, hist0) ==
      flushed |-> RecSet(hist0), removed |-> {}, retired |-> {},
      used |-> RotNames(D0), used0 |-> RotNames(D0), order |-> <<>>,
      foreign0 |-> [n \in {x \in DOMAIN D0 : IsForeign(x)} |-> D0[n]],
-     crashed |-> FALSE, faulted |-> FALSE, stale |-> FALSE, restarts |-> 0]
+     crashed |-> FALSE, faulted |-> FALSE, stale |-> FALSE, restarts |-> 0, fatalLost |-> FALSE]
 
 InitWith(c, D0, rlen0, rday0, hist0, t0) ==
     /\ cfg = c /\ dir = D0 /\ sk = Dead /\ now = t0
@@ -414,6 +421,12 @@ NamesNeverReused == [][NamesStep]_vars
 FlushedRecoverable ==
     \A r \in g.flushed \ g.removed :
         \E n \in DOMAIN dir : dir[n].st \in {"plain", "gz"} /\ r \in RecSet(dir[n].recs)
+
+\* C11 (file half): when the process is aborted right after a fatal message was handled, nothing is left in
+\* QFile's buffer: every record handed to the sink, the fatal one included, has reached the file
+FatalDurable(S) == S.sk.buf = <<>> /\ RecSet(S.g.hist) \subseteq S.g.flushed
+
+FatalDurableInv == ~g.fatalLost
 
 \* nothing is ever written twice (C05 "duplicates")
 NoDuplicates ==
